@@ -213,7 +213,28 @@ async fn run_srv(tok: &[&str]) -> String {
             }
             if let Some(n) = step.strip_prefix('W') {
                 // the transport accepts n reply writes and fails the next one
-                handle.fail_write_after(n.parse().unwrap());
+                let (n, kind) = match n.strip_suffix('i') {
+                    Some(n) => (n, std::io::ErrorKind::Interrupted),
+                    None => (n, std::io::ErrorKind::BrokenPipe),
+                };
+                handle.fail_write_after(n.parse().unwrap(), kind);
+                continue;
+            }
+            if let Some(arg) = step.strip_prefix('K') {
+                // `K<unit>.<ms>`: an application thread holds that unit's handler mutex for <ms> real
+                // milliseconds from now on (the session has to wait for it, never skip the unit)
+                let (u, ms) = arg.split_once('.').unwrap();
+                let (u, ms): (u8, u64) = (u.parse().unwrap(), ms.parse().unwrap());
+                if let Some((_, h)) = handlers.iter().find(|(x, _)| *x == u).cloned() {
+                    let (tx, rx) = std::sync::mpsc::channel();
+                    std::thread::spawn(move || {
+                        let g = h.lock().unwrap_or_else(|e| e.into_inner());
+                        let _ = tx.send(());
+                        std::thread::sleep(std::time::Duration::from_millis(ms));
+                        drop(g);
+                    });
+                    let _ = rx.recv();
+                }
                 continue;
             }
             if let Some(cmd) = step.strip_prefix('!') {
